@@ -21,6 +21,8 @@ Effects (receiver = `self` / the `&mut B` parameter):
    TABLE[i]                    match T[i]? with | none => .panic | some x =>   (the bounds check)
    TABLE.get(i)                T[i]?
    TypeId::of::<E>() == TypeId::of::<LE>()      e = Endian.le   (`e`: the endianness parameter)
+   E::IS_LITTLE / E::IS_BIG                     e = Endian.le / e = Endian.be   (what the type names and the constants
+                                                are is read from src/traits/endianness.rs: tools/translate_endian.py)
 Like in translate_len.py the integer arithmetic carries no overflow panics (outside the domain of
 the theorems); `<<` wraps at the width of its left operand; `as u8` is `% 256`.
 
@@ -37,7 +39,9 @@ TABLE_MODS = {'gamma_tables': 'Gamma', 'delta_tables': 'Delta', 'zeta_tables': '
 TABLE_CONSTS = ('READ_BITS', 'WRITE_MAX', 'MISSING_VALUE_LEN_BE', 'MISSING_VALUE_LEN_LE', 'K')
 TABLE_ARRAYS = ('READ_BE', 'READ_LEN_BE', 'READ_LE', 'READ_LEN_LE', 'WRITE_BE', 'WRITE_LEN_BE', 'WRITE_LE',
                 'WRITE_LEN_LE', 'LEN')
-ENDIAN_NAMES = {'LE': 'Endian.le', 'LittleEndian': 'Endian.le', 'BE': 'Endian.be', 'BigEndian': 'Endian.be'}
+# the selector types and their aliases, as src/traits/endianness.rs defines them (not assumed)
+import translate_endian
+from translate_endian import ENDIAN_NAMES
 
 PRIMS = {'R': {'read_bits': ('.readBits', 1, 'u64'), 'read_unary': ('.readUnary', 0, 'u64')},
          'W': {'write_bits': ('.writeBits', 2, 'usize'), 'write_unary': ('.writeUnary', 1, 'usize')}}
@@ -276,6 +280,16 @@ class ProgDomain(Domain):
         if k == 'method' and e[2] == 'get' and len(e[4]) == 1 and not e[3] and self.table_array(e[1]) is not None:
             i = cps.pure.ex(e[4][0], env)
             return ('%s[%s]?' % (self.table_array(e[1]), i[0]), P_ATOM, ('opt', 'lit'))
+        if k == 'path' and len(e[1]) == 2 and e[2] is None and e[1][1] in translate_endian.CONST_TESTS:
+            # `E::IS_LITTLE` / `E::IS_BIG`: decided with the constants src/traits/endianness.rs defines
+            T = e[1][0]
+            if T in ENDIAN_NAMES:
+                term = ENDIAN_NAMES[T]
+            elif T in cps.endian_generics:
+                term = self.endian if self.endian is not None else cps.use('e')
+            else:
+                cps.fail('`%s::%s`: %s is not an endianness' % (T, e[1][1], T))
+            return (translate_endian.endian_test(e[1][1], term), P_CMP, 'prop')
         if k == 'bin' and e[1] in ('==', '!='):
             a, b = self.type_id(cps, e[2]), self.type_id(cps, e[3])
             if a is not None and b is not None:
